@@ -420,7 +420,7 @@ fn gen_runcfg(rng: &mut Rng, stream: bool, shared_only: bool) -> RunCfg {
     }
     let mut c = RunCfg { api, rev: false, limit: None, strat: Strat::Non, incl: true, ord: rng.below(6) as u8 };
     if c.api.contains("for_each_concurrent") {
-        c.limit = *rng.pick(&[None, None, Some(0), Some(1), Some(1), Some(2), Some(2), Some(3), Some(4), Some(5)]);
+        c.limit = *rng.pick(&[None, None, Some(0), Some(1), Some(1), Some(2), Some(2), Some(3), Some(4), Some(5), Some(64), Some(usize::MAX)]);
     }
     if c.has_opts() {
         c.rev = rng.chance(40);
@@ -975,15 +975,25 @@ fn kpops_main(sizes: &str) {
     let mut lock = stdout.lock();
     for (i, s) in sizes.split(',').enumerate() {
         let n: usize = s.parse().unwrap();
-        for variant in 0..6 {
+        for variant in 0..7 {
             let mut ops = vec![];
             for i in 0..n {
                 // variant 4: two conflicting writers on top of the lattice (a data edge is added whose
                 // target heads the layered part)
                 let w = if variant == 4 && i < 2 { vec![0] } else { vec![] };
+                if variant == 6 {
+                    // layers made of access declarations alone: groups of 3 functions without any logic
+                    // edge, each writes its own type and reads the 3 types of the previous group
+                    let g = i / 3;
+                    let own = (g * 3 + i % 3) % 96;
+                    let r: Vec<usize> = if g == 0 { vec![] } else { (0..3).map(|k| ((g - 1) * 3 + k) % 96).collect() };
+                    ops.push(Op::Fn { tag: 0, r, w: vec![own] });
+                    continue;
+                }
                 ops.push(Op::Fn { tag: 0, r: vec![], w });
             }
-            if variant == 4 {
+            if variant == 6 {
+            } else if variant == 4 {
                 let width = 3;
                 if n > 2 {
                     for b in 2..(2 + width).min(n) {
@@ -1042,7 +1052,7 @@ fn kpops_main(sizes: &str) {
                 }
             }
             let mut out = vec![];
-            out.push(format!("case k{}_{} feat={} shape={}", i, variant, FEAT, ["kcomplete", "klayered", "kdense+chain", "kfanchain", "kwriters+lattice", "kcontains"][variant]));
+            out.push(format!("case k{}_{} feat={} shape={}", i, variant, FEAT, ["kcomplete", "klayered", "kdense+chain", "kfanchain", "kwriters+lattice", "kcontains", "kdatalayers"][variant]));
             for op in &ops {
                 out.push(op.line());
             }
